@@ -5,6 +5,7 @@ import Driver.Proto
 /-
 Streams of C09.
 
+  c09.pairs       scenario written-order       out = the probe's observation (status, or 1/0)
   c09.directives  (one dummy field)            out = casket.ValidDirectives("http") joined by ','
   c09.group       lines perm                   lines: ','-separated  <dir>:<hex token>|<hex token>|…
                                                perm : ','-separated indices into lines (the reordered block)
@@ -93,7 +94,23 @@ def directivesJudge (_ : List String) (out : String) : String :=
   if out = ",".intercalate D then "ok"
   else "bad:list-differs:casket.ValidDirectives(\"http\") is not the list in plugin.go"
 
+def findScenario (f : List String) : Option Scenario :=
+  match f with
+  | [name, _] => scenarios.find? fun s => s.name == name
+  | _ => none
+
+def pairsModel (f : List String) : String :=
+  match findScenario f with
+  | some s => pairPrediction D s
+  | none => "bad-case"
+
+def pairsJudge (f : List String) (out : String) : String :=
+  match findScenario f with
+  | some s => pairVerdict s out
+  | none => "bad:unparsable:case"
+
 def streams : List Driver.Stream := [
+  { name := "c09.pairs", model := pairsModel, judge := pairsJudge },
   { name := "c09.directives", model := directivesModel, judge := directivesJudge },
   { name := "c09.group", model := groupModel, judge := groupJudge },
   { name := "c09.perm", model := permModel, judge := permJudge }
